@@ -6,7 +6,10 @@
 //!   record   solver-found cycles and near misses in larger graphs as events (direction B)
 //!   ser      Proof packing / padding / difficulty cases
 //!   select   which graph definition global::create_pow_context picks per chain type / height / edge bits
+//!   boundary create_pow_context around 29 edge bits: published 42-cycles, and which verifier is built (boundary.rs)
+//!   twins    tuples that are K-cycles once node numbers are cut to the bits the verifiers bucket by
 //!   size     pow::verify_size(&BlockHeader) on TLC's plans: nonce count and shape chosen by the sender (vsize.rs)
+mod boundary;
 mod graph;
 mod run;
 mod sip;
@@ -40,6 +43,8 @@ fn main() {
 		Some("ser") => ser::ser(&args),
 		Some("select") => select(&args),
 		Some("size") => vsize::size(&args),
+		Some("boundary") => boundary::boundary(&args),
+		Some("twins") => twins(&args),
 		_ => {
 			eprintln!("cuckoo pin|scan|exhaust|cases|record|ser|select|size");
 			2
@@ -709,6 +714,90 @@ fn record(args: &Args) -> i32 {
 	let n = out.n;
 	out.finish();
 	println!("{}", json!({"events": n, "graphs": gs.len(), "repo_solver_cycles": solver_found, "by_kind": kinds, "search": stats}));
+	0
+}
+
+// ------------------------------------------------------------------------------------------
+// twins: every verifier files the K*2 edge ends under a few low bits of the node number and compares
+// full node numbers inside a bucket. Tuples that are simple K-cycles of the graph whose node numbers
+// are cut to exactly those bits (and, preferably, also satisfy the endpoint-parity condition on the
+// full numbers) are the near misses of that mechanism: ends that share a bucket without being the
+// same node. They need more nodes than buckets, i.e. graphs beyond 16 edges. Output: `cases` input.
+
+fn bucket_bits(var: Variant) -> u64 {
+	// K = 8: the verifiers' mask is 15
+	match var {
+		Variant::Cuckatoo => 31, // bucket (u >> 1) & 15, bit 0 tells the two nodes of a pair apart
+		Variant::Cuckarood => 7, // bucket (u << 1 | dir) & 15
+		_ => 15,
+	}
+}
+
+fn parity_ok(var: Variant, es: &[Edge]) -> bool {
+	let xu = es.iter().fold(0u64, |a, e| a ^ e.u);
+	let xv = es.iter().fold(0u64, |a, e| a ^ e.v);
+	match var {
+		Variant::Cuckatoo => {
+			let b = ((es.len() / 2) & 1) as u64;
+			xu == b && xv == b
+		}
+		Variant::Cuckaroo | Variant::Cuckarood => xu == 0 && xv == 0,
+		_ => xu ^ xv == 0,
+	}
+}
+
+fn twins(args: &Args) -> i32 {
+	let seed0 = args.u64("seed", 1);
+	let per = args.u64("per", 2) as usize; // graphs per (variant, edge bits)
+	let limit = args.u64("limit", 24) as usize; // tuples per graph
+	let ebs: Vec<u32> = args.get("ebs").unwrap_or("5,6,7").split(',').map(|s| s.parse().unwrap()).collect();
+	let mut out = NdWriter::create(args.req("out"));
+	let mut stats = serde_json::Map::new();
+	for var in variants(args) {
+		for &eb in &ebs {
+			let mut rng = mkrng(seed0, 0x7715 + eb as u64 * 16 + var as u64);
+			let (mut graphs, mut tries) = (0usize, 0u64);
+			let (mut n_bal, mut n_unbal, mut n_true) = (0usize, 0usize, 0usize);
+			while graphs < per && tries < 400 {
+				tries += 1;
+				let seed: u64 = rng.gen::<u64>() >> 1;
+				let es = table(var, eb, seed);
+				let m = bucket_bits(var);
+				let cut: Vec<Edge> = es.iter().map(|e| Edge { nonce: e.nonce, u: e.u & m, v: e.v & m }).collect();
+				let qc = Index::new(var, cut).cycles(K, 4000, true);
+				let mut bal = vec![];
+				let mut unbal = vec![];
+				for t in qc {
+					let sel: Vec<Edge> = t.iter().map(|n| es[*n as usize]).collect();
+					if graph::is_simple_cycle(var, &sel) {
+						n_true += 1;
+						continue;
+					}
+					if parity_ok(var, &sel) {
+						bal.push(t)
+					} else {
+						unbal.push(t)
+					}
+				}
+				if bal.is_empty() {
+					continue;
+				}
+				graphs += 1;
+				for t in bal.iter().take(limit) {
+					n_bal += 1;
+					out.put(&json!({"variant": var.name(), "eb": eb, "seed": seed, "nonces": t, "kind": "bucket_twin"}));
+				}
+				for t in unbal.iter().take(4) {
+					n_unbal += 1;
+					out.put(&json!({"variant": var.name(), "eb": eb, "seed": seed, "nonces": t, "kind": "bucket_twin_odd"}));
+				}
+			}
+			stats.insert(format!("{}{}", var.name(), eb), json!({"graphs": graphs, "seeds_tried": tries, "twins": n_bal, "twins_parity_off": n_unbal, "true_cycles_skipped": n_true}));
+		}
+	}
+	let n = out.n;
+	out.finish();
+	println!("{}", json!({"cases": n, "search": stats}));
 	0
 }
 
